@@ -1,7 +1,7 @@
 import RichModel.Lemmas.WrapStages
 /-!
 `Text.rstrip_end` in its repaired form (`rstripEndW false`: the *cell* length is compared with the width,
-pending_fixes/C08-rstrip-end-counts-cells.diff): a divided line whose text fits without its trailing whitespace
+fix f5f2be9 = the former pending_fixes/C08-rstrip-end-counts-cells.diff; what /repo contains now): a divided line whose text fits without its trailing whitespace
 fits as a whole afterwards — provided no whitespace character is zero cells wide.
 -/
 namespace RichModel
